@@ -89,8 +89,13 @@ func c14W1(b *core.B, r *core.Rng, nProg int) {
 	defer plush.VerifSetYield(nil)
 	fps := map[uint64]bool{}
 	for pi := 0; pi < nProg; pi++ {
-		p := genProgram(r, 2, func(g *pGen) { g.noAssign = true; g.hashBias = true })
+		salt := fmt.Sprintf("|u%d_%d_%d", b.Seed, b.Batch, pi)
+		p := genProgram(r, 2, func(g *pGen) { g.noAssign = true; g.hashBias = true; g.salt = salt; g.partials = true })
 		text := p.canonical()
+		if pi%3 == 0 {
+			// make sure every third program evaluates a pattern nobody has compiled yet
+			text += "<%= cs ~= \"^zz" + salt + "\" %>"
+		}
 		if !b.Begin("W1 " + text) {
 			continue
 		}
@@ -107,12 +112,31 @@ func c14W1(b *core.B, r *core.Rng, nProg int) {
 				}
 				return progCtx(env), env
 			}
-			ctx0, env0 := mk()
-			ref, pan := c14Exec(t, ctx0, env0)
-			if pan != nil {
-				b.Violate(pan.Sig(), "sequential execution: "+pan.Value)
+			// for every other program the sequential reference is taken after the
+			// concurrent phase, so that the goroutines are the first to run the
+			// template (lazily initialised or memoised state is then cold)
+			refFirst := pi%2 == 0
+			var ref c14Obs
+			haveRef := false
+			takeRef := func() bool {
+				ctx0, env0 := mk()
+				var pan *core.PanicInfo
+				ref, pan = c14Exec(t, ctx0, env0)
+				if pan != nil {
+					b.Violate(pan.Sig(), "sequential execution: "+pan.Value)
+					return false
+				}
+				haveRef = true
+				return true
+			}
+			if refFirst && !takeRef() {
 				continue
 			}
+			type late struct {
+				g, rep int
+				o      c14Obs
+			}
+			var lates []late
 			for _, G := range []int{2, 4, 8, 16, 32} {
 				atomic.StoreUint64(&c14FP, 0)
 				start := make(chan struct{})
@@ -133,6 +157,12 @@ func c14W1(b *core.B, r *core.Rng, nProg int) {
 								mu.Unlock()
 								return
 							}
+							if !haveRef {
+								mu.Lock()
+								lates = append(lates, late{g, rep, o})
+								mu.Unlock()
+								continue
+							}
 							if o != ref {
 								mu.Lock()
 								bad = append(bad, fmt.Sprintf("goroutine %d rep %d: sequential %v, concurrent %v", g, rep, ref, o))
@@ -149,6 +179,18 @@ func c14W1(b *core.B, r *core.Rng, nProg int) {
 				b.Count(fmt.Sprintf("W1:%s:G=%d", mode, G))
 				if len(bad) > 0 {
 					b.Violate("concurrent-result-differs|W1|"+mode, strings.Join(bad, "\n"))
+				}
+				if !haveRef {
+					// first group done: now take the sequential reference and judge what was collected
+					if !takeRef() {
+						break
+					}
+					for _, l := range lates {
+						if l.o != ref {
+							b.Violate("concurrent-result-differs|W1|"+mode, fmt.Sprintf("goroutine %d rep %d (before any sequential run): sequential %v, concurrent %v", l.g, l.rep, ref, l.o))
+							break
+						}
+					}
 				}
 			}
 		}
@@ -249,6 +291,82 @@ func c14W2(b *core.B, r *core.Rng, rounds int) {
 		b.NonTrivialStr(strings.Join(texts, "|"))
 		if len(bad) > 0 {
 			b.Violate("concurrent-result-differs|W2-cache", strings.Join(bad, "\n"))
+		}
+	}
+}
+
+// W4: the layout pattern — one execution declares a contentFor block, a later
+// execution with the same context replays it with contentOf — run by many
+// goroutines at once, each with its own child of a shared parent.
+func c14W4(b *core.B, r *core.Rng, rounds int) {
+	for round := 0; round < rounds; round++ {
+		body := genProgram(r, 1, func(g *pGen) { g.noAssign = true; g.noFail = true })
+		page := "page<% contentFor(\"side\") { %>[" + body.canonical() + "|<%= who %>]<% } %>"
+		layout := "layout(<%= contentOf(\"side\") %>)<%= who %>"
+		if !b.Begin("W4 " + page + "\n=====\n" + layout) {
+			continue
+		}
+		tp, err1 := plush.NewTemplate(page)
+		tl, err2 := plush.NewTemplate(layout)
+		if err1 != nil || err2 != nil {
+			continue
+		}
+		parent := progCtx(nil)
+		run := func(who string) (string, *core.PanicInfo) {
+			env := &progEnv{}
+			ctx := c14Child(parent, env)
+			ctx.Set("who", who)
+			var out string
+			pan := core.Guard(func() {
+				c14Enter()
+				defer c14Leave()
+				s1, e1 := tp.Exec(ctx)
+				s2, e2 := tl.Exec(ctx)
+				out = fmt.Sprintf("%q %v / %q %v", s1, e1, s2, e2)
+			})
+			return out, pan
+		}
+		G := []int{4, 8, 16, 32}[round%4]
+		refs := make([]string, G)
+		for g := 0; g < G; g++ {
+			o, pan := run(fmt.Sprintf("w%d", g))
+			if pan != nil {
+				b.Violate(pan.Sig(), "sequential: "+pan.Value)
+			}
+			refs[g] = o
+		}
+		start := make(chan struct{})
+		var wg sync.WaitGroup
+		var mu sync.Mutex
+		var bad []string
+		for g := 0; g < G; g++ {
+			wg.Add(1)
+			go func(g int) {
+				defer wg.Done()
+				<-start
+				for rep := 0; rep < 6; rep++ {
+					o, pan := run(fmt.Sprintf("w%d", g))
+					if pan != nil {
+						mu.Lock()
+						bad = append(bad, "panic: "+pan.Sig()+": "+pan.Value)
+						mu.Unlock()
+						return
+					}
+					if o != refs[g] {
+						mu.Lock()
+						bad = append(bad, fmt.Sprintf("goroutine %d: sequential %s, concurrent %s", g, refs[g], o))
+						mu.Unlock()
+						return
+					}
+				}
+			}(g)
+		}
+		close(start)
+		wg.Wait()
+		b.Count(fmt.Sprintf("W4:contentFor-then-contentOf-same-context:G=%d", G))
+		b.NonTrivialStr(page)
+		if len(bad) > 0 {
+			b.Violate("concurrent-result-differs|W4-contentFor-contentOf", strings.Join(bad, "\n"))
 		}
 	}
 }
@@ -491,7 +609,9 @@ func c14Run(b *core.B) {
 	if b.Tier == core.Thorough {
 		scale = 4
 	}
-	switch b.Batch % 4 {
+	switch b.Batch % 5 {
+	case 4:
+		c14W4(b, r, 40*scale)
 	case 0:
 		c14W1(b, r, 30*scale)
 	case 1:
@@ -510,9 +630,9 @@ func init() {
 	core.Register(&core.Prop{
 		ID:    "C14",
 		Level: "exploration",
-		Rule: "worker processes built with -race (and -tags verif), each sub-workload in its own child process, repeated 5x (quick) / 30x (thorough) because race reports vary from run to run. W1: one parsed template from the shared generator (no mutation of shared data) executed by G in {2,4,8,16,32} goroutines x 3 repetitions, with own root contexts and with child contexts of one shared parent, hook H3 yielding at statement boundaries under a seeded chooser; every result (output, error, side-effect trace) compared with the sequential result. W2: CacheEnabled=true, 4-32 goroutines mixing Render / Parse+Exec / CacheSet+Clone / cold texts over 6 templates, results compared with sequential ones. W3: 2-16 goroutines doing Set (unique values) / Value / Has on one context and through its child and grandchild plus New() storms, few keys; in half of the rounds every call is recorded at the client boundary with ticks from one atomic counter and the history (<= 400 operations) is checked for linearizability against a per-key register model with porcupine (timeout -> inconclusive). Oracle for all: every 'WARNING: DATA RACE' block of the process' race log whose innermost frame of either access is plush code is a violation 'race:<f>|<g>'. Non-trivial = a template / round that ran with >= 2 goroutines; evidence reports the maximum number of overlapping Exec calls and the number of distinct interleaving fingerprints observed.",
+		Rule: "worker processes built with -race (and -tags verif), each sub-workload in its own child process, repeated 5x (quick) / 30x (thorough) because race reports vary from run to run. W1: one parsed template from the shared generator (no mutation of shared data) executed by G in {2,4,8,16,32} goroutines x 3 repetitions, with own root contexts and with child contexts of one shared parent, hook H3 yielding at statement boundaries under a seeded chooser; every result (output, error, side-effect trace) compared with the sequential result. W2: CacheEnabled=true, 4-32 goroutines mixing Render / Parse+Exec / CacheSet+Clone / cold texts over 6 templates, results compared with sequential ones. W4: the layout pattern - per goroutine one execution declaring a contentFor block and a later execution of another template replaying it with contentOf on the same child context of a shared parent, 4-32 goroutines. W3: 2-16 goroutines doing Set (unique values) / Value / Has on one context and through its child and grandchild plus New() storms, few keys; in half of the rounds every call is recorded at the client boundary with ticks from one atomic counter and the history (<= 400 operations) is checked for linearizability against a per-key register model with porcupine (timeout -> inconclusive). Oracle for all: every 'WARNING: DATA RACE' block of the process' race log whose innermost frame of either access is plush code is a violation 'race:<f>|<g>'. Non-trivial = a template / round that ran with >= 2 goroutines; evidence reports the maximum number of overlapping Exec calls and the number of distinct interleaving fingerprints observed.",
 		Assume:  []string{"a clean run means no race on the interleavings observed, not race freedom", "templates do not mutate data reachable from a shared parent (that would be a user-level race)"},
-		Batches: batchesQT(20, 120),
+		Batches: batchesQT(25, 150),
 		Run:     c14Run,
 		Env: func(root string, batch int) []string {
 			logBase := filepath.Join(root, "work", "C14", "race")
